@@ -235,6 +235,66 @@ func (s *Session) Exec2(t []string, num func(int) uint64) (obs, viol string, han
 			}
 		}
 		return obs, viol, true
+	case "cwalk":
+		// cwalk <tree> <probe> <moves f|b...>: a fresh cursor placed by Ceil, then moved; the
+		// entries read after each call, against the sorted Go map (used under injected faults)
+		m := tree(1)
+		if m == nil {
+			return "bad-slot", "", true
+		}
+		o := s.Oracle[int(num(1))]
+		keys := sortedKeys64(o)
+		c, err := m.Cursor(s.ctx)
+		if err != nil {
+			return errClass(err), "Cursor failed: " + err.Error(), true
+		}
+		k := num(2)
+		if err := c.Ceil(s.ctx, s.Cfg.Key(k)); err != nil {
+			return errClass(err), "Ceil failed: " + err.Error(), true
+		}
+		pos := sort.Search(len(keys), func(i int) bool { return keys[i] >= k })
+		off := pos >= len(keys)
+		var got []string
+		read := func() {
+			kk, vv, ok := c.Get()
+			if !ok {
+				got = append(got, "none")
+				if !off && viol == "" {
+					viol = fmt.Sprintf("cursor reports no entry, sorted sequence is at key %d", keys[pos])
+				}
+				return
+			}
+			kn, vn := s.Cfg.KeyNat(kk), s.Cfg.ValNat(vv)
+			got = append(got, fmt.Sprintf("%d=%d", kn, vn))
+			if viol == "" && (off || keys[pos] != kn || o[kn] != vn) {
+				viol = fmt.Sprintf("cursor at %d=%d, sorted sequence says otherwise (position %d, off=%v)", kn, vn, pos, off)
+			}
+		}
+		read()
+		moves := ""
+		if len(t) > 3 {
+			moves = t[3]
+		}
+		for _, mv := range moves {
+			if mv == 'f' {
+				err = c.Forward(s.ctx)
+				if !off {
+					pos++
+					off = pos >= len(keys)
+				}
+			} else {
+				err = c.Backward(s.ctx)
+				if !off {
+					pos--
+					off = pos < 0
+				}
+			}
+			if err != nil {
+				return errClass(err), "cursor move failed: " + err.Error(), true
+			}
+			read()
+		}
+		return strings.Join(got, ","), viol, true
 	case "seek", "seekstop":
 		m := tree(1)
 		if m == nil {
